@@ -41,6 +41,8 @@ def norm(test, canon):
     if isinstance(test, ast.Call) and isinstance(test.func, ast.Attribute) and test.func.attr == "isinf" and len(test.args) == 1:
         return ("isinf", canon(test.args[0]))
     if isinstance(test, ast.Call) and isinstance(test.func, ast.Name) and test.func.id == "isinstance" and len(test.args) == 2:
+        if isinstance(test.args[1], ast.Tuple) and test.args[1].elts:      # isinstance(x, (A, B)) is isinstance(x, A) or isinstance(x, B)
+            return ("or", tuple(("isinstance", canon(test.args[0]), canon(t)) for t in test.args[1].elts))
         return ("isinstance", canon(test.args[0]), canon(test.args[1]))
     txt = canon(test)
     if isinstance(test, ast.Name) and isinstance(txt, str) and txt != test.id and any(c in txt for c in "(<>=! "):
